@@ -252,20 +252,79 @@ def replay_softmax(ck, np, rp):
 TIE_UNIT = float(1 << 40)
 
 
-def _decode16(words):
-    """512 hardware words (slope << 16) + base -> the 513 int16 sample values"""
-    vals = []
-    last = None
+def _fields16(words):
+    """512 hardware words -> (bases, slopes): bits [15:0] and [31:16] as 16-bit two's-complement fields"""
+    bases, slopes = [], []
     for w in words:
         w = int(w) & 0xFFFFFFFF
-        base = w & 0xFFFF
-        base = base - 0x10000 if base >= 0x8000 else base
-        slope = w >> 16
-        slope = slope - 0x10000 if slope >= 0x8000 else slope
-        vals.append(base)
-        last = base + slope
-    vals.append(last)
-    return vals
+        b, s_ = w & 0xFFFF, w >> 16
+        bases.append(b - 0x10000 if b >= 0x8000 else b)
+        slopes.append(s_ - 0x10000 if s_ >= 0x8000 else s_)
+    return bases, slopes
+
+
+def _decode16(words):
+    """the 513 sample values a 512-word table encodes (field semantics)"""
+    bases, slopes = _fields16(words)
+    return bases + [bases[-1] + slopes[-1]]
+
+
+def judge16(ck, what, cfg, real_words, lean_vals, dists, tol, path, stats, reported):
+    """16-bit table: bases against the Lean Float samples (tie rule), then every slope field against the difference of the
+    neighbouring samples.  A slope field that is exactly one too small on an entry with a NEGATIVE base is the finding
+    lut16-negative-base-borrows-one-from-slope-field (word built as (slope << 16) + base with a signed base)."""
+    bases, slopes = _fields16(real_words)
+    r = []
+    for j in range(512):
+        a, b = bases[j], lean_vals[j]
+        stats["entries"] += 1
+        if a == b:
+            stats["equal"] += 1
+        elif abs(a - b) == 1 and dists[j] < TIE_UNIT * tol:
+            stats["off_by_one_near_tie_double_path" if path == "double" else "off_by_one_within_float32_tolerance"] += 1
+            ck.sample({"float_table_off_by_one_near_tie": cfg, "index": j, "implementation": a, "lean_float": b, "tie_distance_2^-40": dists[j],
+                       "arithmetic": path}, limit=24)
+        else:
+            stats["worse"] += 1
+            if (what, "worse") not in reported:
+                reported.add((what, "worse"))
+                ck.violation(f"{what}: base of entry {j} is {a}, the generator's formula evaluated in double precision (Lean Float) gives {b} "
+                             f"(tie distance {dists[j] / TIE_UNIT:.3g} LSB, tolerated {tol:.3g}); config {cfg}",
+                             {"kind": "float_table", **cfg, "index": j, "implementation": a, "lean_float": b})
+        r.append(a)
+    stats["entries"] += 1
+    borrow = 0
+    for j in range(512):
+        nxt = r[j + 1] if j < 511 else lean_vals[512]
+        want, got = nxt - r[j], slopes[j]
+        if got == want:
+            continue
+        if not (-32768 <= want <= 32767):
+            # a step the 16-bit slope field cannot hold (a saturated table jumping from one end of the range to the other inside one
+            # segment: exp over an input range that reaches the float overflow); limit of the table format, counted
+            ck.count("lut16_slope_not_representable_in_16_bits")
+            continue
+        if j == 511 and abs(got - want) == 1 and dists[512] < TIE_UNIT * tol:
+            stats["off_by_one_near_tie_double_path" if path == "double" else "off_by_one_within_float32_tolerance"] += 1
+            continue
+        if got == want - 1 and r[j] < 0:
+            borrow += 1
+            continue
+        stats["worse"] += 1
+        if (what, "slope") not in reported:
+            reported.add((what, "slope"))
+            ck.violation(f"{what}: slope field of entry {j} is {got}, the difference of the neighbouring samples is {want} (base {r[j]}); config {cfg}",
+                         {"kind": "float_table", **cfg, "index": j, "slope_field": got, "expected": want, "base": r[j]})
+    stats["equal"] += 1 if not borrow else 0
+    if borrow:
+        ck.count("lut16_tables_with_slope_borrow")
+        ck.count("lut16_slope_fields_one_too_small_on_negative_base", borrow)
+        j = next(j for j in range(512) if r[j] < 0 and slopes[j] == ((r[j + 1] if j < 511 else lean_vals[512]) - r[j]) - 1)
+        ck.violation(f"{what}: {borrow} of 512 hardware words carry a slope field one too small: the word is built as (slope << 16) + base with a NEGATIVE "
+                     f"base, which borrows from the top half; e.g. entry {j}: base {r[j]}, next sample {(r[j + 1] if j < 511 else lean_vals[512])}, slope field {slopes[j]}, "
+                     f"word 0x{int(real_words[j]) & 0xFFFFFFFF:08x}; config {cfg}",
+                     {"kind": "float_table", **cfg, "index": j, "word": int(real_words[j]) & 0xFFFFFFFF, "base": r[j], "slope_field": slopes[j]},
+                     key="lut16-negative-base-borrows-one-from-slope-field")
 
 
 def lut_op_streams(ck, np):
@@ -302,18 +361,20 @@ def lut_op_streams(ck, np):
         if kind == "exp" and rng.random() < 0.5:
             so = math.exp(si * 127) / rng.uniform(120, 400)              # output range matched to the input range
         zi = rng.randrange(-128, 128) if kind in ("exp", "gelu", "gelu_tanh") else -128
-        if kind in ("log", "sqrt") and rng.random() < 0.12:
-            zi = rng.randrange(-127, 0)                                   # negative dequantised inputs: the function is undefined there
+        if kind in ("log", "sqrt") and rng.random() < 0.3:
+            zi = rng.randrange(-127, 0)                                   # negative dequantised inputs: outside the function's domain (clamped by the generator's function)
         zo = rng.choice([-128, 0, 127]) if rng.random() < 0.3 else rng.randrange(-128, 128)
         cases.append(dict(bits=8, kind=kind, si=si, so=so, zi=zi, zo=zo, zt=ZTS[(i // 5) % 2], st=STS[(i // 10) % 3]))
-    n16 = 36 if not th else 400
+    n16 = 40 if not th else 400
     for i in range(n16):
-        kind = ["exp", "gelu", "gelu_tanh"][i % 3]
+        kind = ["exp", "gelu", "gelu_tanh", "log", "sqrt"][i % 5]
         si = math.exp(rng.uniform(math.log(1e-5), math.log(3e-4)))
         so = math.exp(rng.uniform(math.log(1e-5), math.log(3e-4)))
         if kind == "exp":
             so = math.exp(si * 32767) / 32768 * rng.uniform(0.5, 1.5)
-        cases.append(dict(bits=16, kind=kind, si=si, so=so, zi=0, zo=0, zt=ZTS[(i // 3) % 2], st=STS[(i // 6) % 3]))
+        if kind == "exp" and rng.random() < 0.15:
+            si = rng.choice([0.03, 0.05])                                     # 32767 * scale > 709: math.exp overflows, the entries saturate
+        cases.append(dict(bits=16, kind=kind, si=si, so=so, zi=0, zo=0, zt=ZTS[(i // 5) % 2], st=STS[(i // 10) % 3]))
 
     reqs = []
     for c in cases:
@@ -404,7 +465,7 @@ def lut_op_streams(ck, np):
                 stats["entries"] += 513
                 stats["equal"] += 513
             else:
-                judge(tag, cfg, _decode16(real_words), ints(outs[c["vi"]]), dists, tol, path)
+                judge16(ck, tag, cfg, real_words, ints(outs[c["vi"]]), dists, tol, path, stats, reported)
             n_eval += 513
     # --- constant tables of the int16 SOFTMAX: TFLite gen_lut(exp, -10, 0) and gen_lut(1/(1+x), 0, 1)
     for k, (name, tab) in enumerate((("SoftMax.EXP_LUT", SoftMax.EXP_LUT), ("SoftMax.ONE_OVER_ONE_PLUS_X_LUT", SoftMax.ONE_OVER_ONE_PLUS_X_LUT))):
